@@ -83,7 +83,9 @@ REFERRING = ["groupby-selected", "orderby-selected", "groupby-unselected", "orde
              # the alias is defined only by a discarded sibling branch / another statement / a select list since replaced by *
              "groupby-sibling-unselected", "orderby-sibling-unselected", "groupby-elsewhere-unselected", "orderby-after-star-unselected",
              # only the second operand of a set operation defines the alias: the result's column names come from the first
-             "setop-orderby-later-branch-unselected"]
+             "setop-orderby-later-branch-unselected",
+             # a grouped query as operand of a set operation that is rendered with str() (no context given by the caller)
+             "groupby-selected-setop-branch"]
 
 
 def cases(tier, seed, shard, nshards):
@@ -111,7 +113,8 @@ def cases(tier, seed, shard, nshards):
                         continue
                     yield {"k": "operand", "d": d, "outer": e["label"], "slot": slot, "label": lab, "mode": "param" if (k // nshards) % 3 == 0 else "inline"}
     for d in DIALECT_CLASSES:
-        for src in ("table", "subquery", "setop", "table-join", "subquery-join"):
+        for src in ("table", "subquery", "setop", "table-join", "subquery-join", "temporal", "temporal-join", "temporal-portion", "temporal-aliased-after",
+                    "temporal-portion-update"):
             k += 1
             if k % nshards == shard:
                 yield {"k": "source", "d": d, "src": src}
@@ -130,6 +133,8 @@ def sql_of(o, d, mode="inline"):
     ctx = contexts()[d]
     if mode == "param":  # aliases are a matter of structure: a parameterizer must not change where they appear
         ctx = ctx.copy(parameterizer=R()["Parameterizer"]())
+    if isinstance(o, R()["_SetOperation"]) and mode == "inline":
+        return str(o)  # set operations are rendered the way users render them: the dialect comes from the base query
     return o.get_sql(ctx)
 
 
@@ -192,6 +197,8 @@ def build_position(case, aliased):
     if pos == "groupby-elsewhere-unselected":
         str(Q.from_(t).select(x, y).groupby(x))
         return Q.from_(t).select(y).groupby(x)
+    if pos == "groupby-selected-setop-branch":
+        return Q.from_(t).select(x, y).groupby(x).union(Q.from_(t).select(y, y))
     if pos == "setop-orderby-later-branch-unselected":
         return Q.from_(t).select(y).union(Q.from_(t).select(x)).orderby(x)
     if pos == "orderby-after-star-unselected":
@@ -373,7 +380,15 @@ def run_source(case, mon):
     src = case["src"]
 
     def build(alias):
-        if src.startswith("table"):
+        if src.startswith("temporal"):
+            stv = r["SystemTimeValue"]()
+            s = T("src", alias=AL if alias else None)
+            s = s.for_(stv == "2020-01-01") if "portion" not in src else s.for_portion(stv.from_to("2020-01-01", "2021-01-01"))
+            if src == "temporal-aliased-after":  # alias given after the temporal clause
+                s = T("src").for_(stv == "2020-01-01").as_(AL)
+            if src.endswith("update"):
+                return Q.update(s).set("a", 1).where(s.b == 2), s
+        elif src.startswith("table"):
             s = T("src", alias=AL if alias else None)
         elif src.startswith("subquery"):
             s = Q.from_(T("inner")).select("id", "a")
@@ -393,6 +408,13 @@ def run_source(case, mon):
     # exactly one defining occurrence: the one directly after the source (a table name or a closing parenthesis)
     defining = [i for i in occ if i > 0 and (toks[i - 1].text == ")" or (toks[i - 1].kind == "IDENT" and toks[i - 1].value in ("src",)) or
                                             (toks[i - 1].kind == "WORD" and toks[i - 1].value == "AS"))]
+    if src.startswith("temporal"):
+        # the source is the table *with* its FOR clause: the alias follows the clause, and the item ends after the alias
+        defining = [i for i in occ if i + 1 >= len(toks) or (toks[i + 1].kind == "WORD" and toks[i + 1].value in ("JOIN", "WHERE", "ON", "SET", "INNER", "LEFT"))
+                    or toks[i + 1].text == ","]
+        if any(i + 1 < len(toks) and toks[i + 1].kind == "WORD" and toks[i + 1].value == "FOR" for i in occ):
+            mon.violation("source-alias-misplaced:%s:%s" % (src, fam), "the alias of a temporal table stands before its FOR clause: %r" % sql[:240])
+            return
     if len(defining) != 1:
         mon.violation("source-alias:%s:%s" % (src, fam), "alias of a %s source is defined %d times: %r" % (src, len(defining), sql[:240]))
         return
